@@ -42,8 +42,13 @@ func runTunnelAPIFull(kind string, g *gwServer, segs [][]byte, hosts []*hostList
 		}
 		cl = w
 		pr = readWS(w, wait)
-	case "legacy":
+	case "legacy", "legacy-eager":
+		if kind == "legacy-eager" && len(segs) > 0 {
+			legacyEagerFirst = segs[0]
+			segs = segs[1:]
+		}
 		l, err := dialLegacy(g.addr, connID, hdr)
+		legacyEagerFirst = nil
 		if err != nil {
 			res.inconclusive = "legacy dial: " + err.Error()
 			return res
